@@ -77,6 +77,9 @@ namespace igris
 
         unbounded_array &operator=(const unbounded_array &oth)
         {
+            if (this == &oth)
+                return *this;
+            invalidate();
             m_data = alloc.allocate(oth.size());
             m_size = oth.size();
 
